@@ -59,8 +59,13 @@ def lis_files(rng, n):
             lrs += [GLL.file_head()]
         for _ in range(rng.choice([0, 1, 4])):
             lrs.append(GLL.misc(rng.choice([232, 234, 224]), bytes(rng.randrange(256) for _ in range(rng.choice([2, 40, 700])))))
+        long_ = i < 2
+        if long_:
+            # the first two: a logical record of some 150 physical records (any look-ahead limit of the detector falls inside it)
+            tif = ['none', 'le'][i]
+            lrs.append(GLL.misc(232, bytes(rng.randrange(256) for _ in range(3000))))
         lrs.append(GLL.file_tail())
-        maxpay = rng.choice([20, 60, 126, 1020, 65000])
+        maxpay = rng.choice([20, 60, 126, 1020, 65000]) if not long_ else 20
         trailer = rng.choice([(0, 0, 0), (1, 1, 0), (1, 1, 1)])
         splits = [GL.split_greedy(len(x), maxpay) for x in lrs]
         layout = GL.layout_from_splits(splits, rng, trailer)
